@@ -78,6 +78,9 @@ pub enum Step {
     DisconnectNode { key: u8 },
     Lookup { far_from: u8 },
     Unverifiable { rec: Rec },
+    /// a PING request arrives from the node of `rec` (over a session the handler has with it); it
+    /// announces the sequence number of `rec`
+    IncomingPing { rec: Rec, matching: bool },
 }
 
 #[derive(Clone, Debug, PartialEq, Eq, Hash, Serialize, Deserialize)]
@@ -416,6 +419,23 @@ async fn run(case: &Case, rep: &mut CaseReport) -> Option<(String, String)> {
                 s.inject(HandlerOut::Response(o.contact.node_address(), Box::new(Response { id: o.id.clone(), body: ResponseBody::Nodes { total: 2, nodes } }))).await;
                 s.inject(HandlerOut::RequestFailed(o.id.clone(), RequestError::Timeout)).await;
             }
+            Step::IncomingPing { rec, matching } => {
+                let e = rec_enr(rec);
+                let other = svc_addr4(800 + rec.key as u32);
+                let src = if *matching { e.udp4_socket().map(SocketAddr::V4).unwrap_or(other) } else { other };
+                if case.mode == Mode::Ip6 {
+                    rep.exclude("source-family-not-served-by-this-ip-mode", 1);
+                    continue;
+                }
+                if !prev.contains_key(&e.node_id().raw()) {
+                    rep.class("ping-request-from-a-node-that-is-not-in-the-table");
+                }
+                s.inject(HandlerOut::Request(
+                    NodeAddress::new(src, e.node_id()),
+                    Box::new(discv5::verif::Request { id: RequestId(vec![9, rec.key, rec.ver]), body: RequestBody::Ping { enr_seq: e.seq() } }),
+                ))
+                .await;
+            }
             Step::AnswerPing { sel, seq_delta } => {
                 let cands: Vec<usize> = outstanding.iter().enumerate().filter(|(_, o)| matches!(o.body, RequestBody::Ping { .. })).map(|(i, _)| i).collect();
                 if cands.is_empty() {
@@ -581,6 +601,7 @@ impl Property for C12 {
             1 => (0u8..12).prop_map(|key| Step::DisconnectNode { key }),
             5 => (0u8..12).prop_map(|far_from| Step::Lookup { far_from }),
             1 => rec_strategy().prop_map(|rec| Step::Unverifiable { rec }),
+            2 => (rec_strategy(), prop_oneof![3 => Just(true), 1 => Just(false)]).prop_map(|(rec, matching)| Step::IncomingPing { rec, matching }),
         ];
         // by construction: a table member announces a newer record (PONG with a higher seq), the
         // service asks it for that record, the member LEAVES the table before the answer arrives
@@ -631,7 +652,18 @@ impl Property for C12 {
                 Step::PartialThenFail { sel: 65535, recs: vec![Rec { key, ver: ver.saturating_sub(back).max(1), shape }] },
             ]
         });
-        let frag = prop_oneof![40 => step.prop_map(|x| vec![x]), 1 => refresh_race, 1 => session_vs_lookup, 1 => session_races_lookup, 1 => refresh_partial];
+        // by construction: a running lookup has learnt a record of node X, which is not in the table;
+        // then a PING request of X arrives (a PING is not a session report: it admits nobody)
+        let ping_from_heard = (0u8..12, 0u8..12, 1u8..=3, prop_oneof![Just(Shape::V4), Just(Shape::V4OddPort), Just(Shape::Both)]).prop_map(|(member, key, ver, shape)| {
+            let key = if key == member { (key + 1) % 12 } else { key };
+            vec![
+                Step::Incoming { rec: Rec { key: member, ver: 1, shape: Shape::V4 }, v6: false, matching: true, attach: true },
+                Step::Lookup { far_from: member },
+                Step::AnswerFindNode { sel: 65535, recs: vec![Rec { key, ver, shape }] },
+                Step::IncomingPing { rec: Rec { key, ver, shape }, matching: true },
+            ]
+        });
+        let frag = prop_oneof![40 => step.prop_map(|x| vec![x]), 1 => refresh_race, 1 => session_vs_lookup, 1 => session_races_lookup, 1 => refresh_partial, 1 => ping_from_heard];
         let svc = (
             prop_oneof![3 => Just(Mode::Ip4), 1 => Just(Mode::Ip6), 2 => Just(Mode::Dual)],
             prop_oneof![Just(FilterSel::AcceptAll), Just(FilterSel::NoMarker), Just(FilterSel::EvenPort)],
